@@ -542,6 +542,26 @@ func genA(t *rapid.T) caseA {
 	for i, n := 0, rapid.IntRange(0, 4).Draw(t, "nsetup"); i < n; i++ {
 		c.Setup = append(c.Setup, rapid.SampledFrom(names).Draw(t, "sname")+"="+string(genValue(t, "sv")))
 	}
+	if rapid.IntRange(0, 7).Draw(t, "burst") == 5 {
+		// many reassignments of a few variables (the list of NAME=value entries grows with every one), each followed
+		// now and then by a look at what programs and expansions see
+		bn := rapid.SliceOfNDistinct(rapid.SampledFrom(names), 1, 3, rapid.ID[string]).Draw(t, "burstnames")
+		for i, nb := 0, rapid.IntRange(15, 45).Draw(t, "nburst"); i < nb; i++ {
+			kind := "env"
+			if rapid.IntRange(0, 3).Draw(t, "bsetenv") == 2 {
+				kind = "setenv"
+			}
+			c.Steps = append(c.Steps, stepA{Kind: kind, Name: rapid.SampledFrom(bn).Draw(t, "bname"), Value: vt.B(fmt.Sprintf("v%d", i))})
+			switch rapid.IntRange(0, 13).Draw(t, "blook") {
+			case 1:
+				c.Steps = append(c.Steps, stepA{Kind: "printenv", Names: []string{bn[0], bn[len(bn)-1]}})
+			case 2:
+				c.Steps = append(c.Steps, stepA{Kind: "dumpenv"})
+			case 3:
+				c.Steps = append(c.Steps, stepA{Kind: "getenv", Name: bn[0]})
+			}
+		}
+	}
 	n := rapid.IntRange(3, 20).Draw(t, "nsteps")
 	for i := 0; i < n; i++ {
 		switch k := rapid.IntRange(0, 11).Draw(t, "skind"); {
